@@ -383,7 +383,20 @@ def ite(I, c, a, b):
     """np.where / masked assignment on generic elements"""
     if isinstance(c, bool):
         return a if c else b
+    c = z3.simplify(c)
+    if z3.is_true(c):
+        return lift(a)
+    if z3.is_false(c):
+        return lift(b)
+    if I is not None and getattr(I, 'path', None) is not None and I.prune and I.path.pc:
+        # condition decided by the path condition / contract hypotheses: keep the term small
+        if not I.feasible(z3.Not(c)):
+            return lift(a)
+        if not I.feasible(c):
+            return lift(b)
     a, b = lift(a), lift(b)
+    if a.t.eq(b.t) and not a.has_inf and not b.has_inf:
+        return SV(a.t, kind=merge_kind(a, b))
     if a.is_bool and b.is_bool:
         return SV(z3.If(c, a.t, b.t), kind=merge_kind(a, b))
     a, b = as_arith(a), as_arith(b)
@@ -567,6 +580,7 @@ def reduction(I, kind, x):
     if key not in I.reductions:
         c = z3.Real(f"{kind}#{len(I.reductions)}")
         I.reductions[key] = {'kind': kind, 'term': x.t, 'mask': x.guard, 'value': c}
+    I.reduction_uses.append(key)
     return SV(I.reductions[key]['value'], kind='scalar')
 
 
@@ -1182,6 +1196,22 @@ def np_searchsorted(I, a, v, side='left', **kw):
     return SV(p, guard=v.guard, kind=v.kind)
 
 
+def np_sum(I, x, **kw):
+    if isinstance(x, (PList, tuple, list)):
+        return b_sum(I, x)
+    x = lift(x)
+    if x.kind == 'scalar':
+        return x
+    return reduction(I, 'sum', x)
+
+
+def np_dot(I, a, b):
+    a, b = lift(a), lift(b)
+    if a.kind == 'scalar' and b.kind == 'scalar':
+        return binop(I, ast.Mult, a, b)
+    return reduction(I, 'sum', binop(I, ast.Mult, a, b))
+
+
 def np_isclose(I, a, b, rtol=1e-05, atol=1e-08, **kw):
     if isinstance(a, (int, float)) and isinstance(b, (int, float)):
         return abs(a - b) <= atol + rtol * abs(b)
@@ -1633,6 +1663,7 @@ def make_libs(I):
     I.external_calls = []
     I.cumsum_records = []
     I.reductions = {}
+    I.reduction_uses = []
     I.root_records = []
 
     def opaque_attr(base, attr):
@@ -1662,7 +1693,7 @@ def make_libs(I):
         'logical_and': Builtin('logical_and', lambda a, b: logical_and(I, a, b)),
         'logical_or': Builtin('logical_or', lambda a, b: _mk(I, z3.Or(lift(a).t, lift(b).t), lift(a), lift(b))),
         'empty': L(np_empty), 'arange': L(np_arange), 'cumsum': L(np_cumsum), 'insert': L(np_insert), 'append': L(np_append),
-        'concatenate': L(np_concatenate), 'searchsorted': L(np_searchsorted), 'isclose': L(np_isclose), 'all': L(np_all), 'any': L(np_any),
+        'concatenate': L(np_concatenate), 'searchsorted': L(np_searchsorted), 'isclose': L(np_isclose), 'all': L(np_all), 'any': L(np_any), 'sum': L(np_sum), 'dot': L(np_dot),
         'inf': SV(float('inf')), 'pi': SV(z3.Real('PI')), 'nan': Opaque('nan'),
         'float64': Opaque('float64'), 'double': Opaque('float64'), 'uintp': Opaque('uintp'), 'int64': Opaque('int64'),
         'bool_': Opaque('bool'), 'int8': Opaque('int8'),
